@@ -18,8 +18,18 @@ effects do not run yet, an effect runs but is not applied yet, and so on.  This 
 * `MStep`/`mstep` — the micro-steps with their removal sets (DFS cascade of `_force_recalc` +
   `AttrsValueChanged`).
 
-Fleet boosts (warfare buffs re-register their specs when buff attributes change) are *not* part of this
-layer; theorems about it carry the hypothesis that the universe has no buff effects.
+Fleet boosts: the warfare-buff modifiers of a running boost effect are message payload (`Dyn.bspecs`, set
+by `MStep.buffset`) like the recorded targets; *which* templates the service picks from the buff attributes
+is therefore outside this layer: the specification layer `World.buffModifiers` states it.  The two layers are
+joined by `BuffPayloadOK` / `BuffSettled` (`EosProofs/Lemmas/MicroBuffTable.lean`): a dynamic state that is
+`derivedDyn` on loaded items, running effects and the targets of ordinary effects and in which, for every
+running boost, the registered modifiers are the specification's `buffModifiers` computed from the table
+`World.evalAll` and the recorded targets are the specification's `boostTargets` (or the projector has no
+projected modifier at all) has the table's entries as its from-scratch values
+(`settled_spec_eq_table_buff`, headline `C01World.world_read_eq_table_buff`; no "no buff effects"
+hypothesis).  That a real settled state is `BuffSettled` is what the correspondence check compares after
+every public call: registered payload and recorded targets of every running boost against the specification
+(driver command `QB`).
 -/
 namespace Eos.Micro
 open Eos.World Eos.Calc
@@ -34,6 +44,10 @@ structure Dyn where
   on : Nat → Int → Bool
   /-- targets recorded by `EffectApplied` for projector `(item, effect)` -/
   tgts : Nat → Int → List Nat
+  /-- warfare-buff modifiers registered for projector `(item, effect)` (`__warfare_buffs`): built by the
+  service from the buff id / value attributes and the source's buff templates when a fleet-boost effect
+  starts or its buff attributes change; here they are message payload, like the recorded targets -/
+  bspecs : Nat → Int → List Modifier := fun _ _ => []
 
 variable (u : Universe) (cfg : Config) (d : Dyn)
 
@@ -93,11 +107,23 @@ def selects (s : Spec) (x : Item) (tx : ItemType) : Bool :=
 def localSpecs (a : Item) : List Spec :=
   (running u d a).flatMap fun e => (e.mods.filter (·.domain != 4)).map fun m => ⟨a, e, m, none⟩
 
-/-- Projected specs of the running projectable effects of `a`, one per recorded target. -/
+/-- Well-formed warfare-buff payload: a target-domain modifier whose source is one of the warfare-buff
+attributes and whose target attribute is the target of one of the universe's buff templates (every modifier
+the service builds from a template is like that).  Anything else in `Dyn.bspecs` is ignored, so that the
+dependency graph of *every* dynamic state is ranked by `rankWF` (the driver rejects such a payload line). -/
+def bspecOK (m : Modifier) : Bool :=
+  m.domain == 4 && buffAttrs.contains m.srcAttr && u.buffs.any (·.tgtAttr == m.tgtAttr)
+
+/-- Projected modifiers of effect `e` of item `a`: its own target-domain modifiers and, for a fleet-boost
+effect, the registered warfare-buff modifiers (`__generate_projected_affectors`). -/
+def projMods (a : Item) (e : Effect) : List Modifier :=
+  (e.mods.filter (·.domain == 4)) ++ (if e.isBuff then (d.bspecs a.id e.id).filter (bspecOK u) else [])
+
+/-- Projected specs of the running projectable / fleet-boost effects of `a`, one per recorded target. -/
 def projSpecs (a : Item) : List Spec :=
   (running u d a).flatMap fun e =>
-    if e.category == 2 then
-      (targetsOf cfg d a e).flatMap fun t => (e.mods.filter (·.domain == 4)).map fun m => ⟨a, e, m, some t⟩
+    if e.category == 2 || e.isBuff then
+      (targetsOf cfg d a e).flatMap fun t => (projMods u d a e).map fun m => ⟨a, e, m, some t⟩
     else []
 
 def allSpecs : List Spec := cfg.items.flatMap fun a => localSpecs u d a ++ projSpecs u cfg d a
@@ -237,6 +263,9 @@ inductive MStep
   | unapply (i : Nat) (e : Int) (ts : List Nat)
   /-- `AttrsValueChanged` raised for an overridden attribute (skill level changed) -/
   | changed (i : Nat) (attr : Int)
+  /-- the service (re)builds or drops the warfare-buff modifiers of projector `(i, e)` (no targets are
+      recorded for it at that moment: the old ones were un-applied, the new ones are applied afterwards) -/
+  | buffset (i : Nat) (e : Int) (ms : List Modifier)
   /-- a change of the static configuration that touches no loaded item (placing / removing an unloaded item,
       changing the state or target field itself; the messages that follow are separate steps) -/
   | reconfig (cfg' : Config)
@@ -279,7 +308,8 @@ def mstep (s : MState) : MStep → MState
     let d' := setOn s.dyn i es false
     { s with dyn := d', cache := visitAll u s.cfg d' (fuelOf u) s.cache direct }
   | .apply i e ts =>
-    let d' := setTgts s.dyn i e ((s.dyn.tgts i e) ++ ts)
+    -- recorded targets are a set: applying to a recorded target again adds nothing
+    let d' := setTgts s.dyn i e ((s.dyn.tgts i e) ++ ts.filter fun t => !(s.dyn.tgts i e).contains t)
     { s with dyn := d',
              cache := visitAll u s.cfg d' (fuelOf u) s.cache (directOf u s.cfg d' (projSpecsOf u s.cfg d' i e ts)) }
   | .unapply i e ts =>
@@ -288,6 +318,8 @@ def mstep (s : MState) : MStep → MState
     { s with dyn := d', cache := visitAll u s.cfg d' (fuelOf u) s.cache direct }
   | .changed i attr =>
     { s with cache := casc u s.cfg s.dyn (fuelOf u) s.cache (i, attr) }
+  | .buffset i e ms =>
+    { s with dyn := { s.dyn with bspecs := fun j f => if j = i ∧ f = e then ms else s.dyn.bspecs j f } }
   | .reconfig cfg' => { s with cfg := cfg' }
 
 /-- Reader over a node valuation: a skill's level is an override of the item; an attribute without
